@@ -239,6 +239,10 @@ def run_c03(ctx) -> Corr:
     # stream transport, as multi-step byte histories (what is stored from one line is written back because of a later one)
     from . import bytepipe
     bytepipe.run(corr, ctx)
+    # the same pipeline when the far end is slow: drains, reads and closes that stay pending for stretches of virtual
+    # time (0 s ... a day ... for ever) while the handlers answer, on an event loop with a virtual clock
+    from . import stall
+    stall.run(corr, ctx)
     return corr
 
 
